@@ -18,10 +18,15 @@ def run(ctx):
     common.proofs(ctx, "theories/Props/C03.v", THEOREMS)
     # application level: transactions with altered fields, foreign or re-used signatures, other chain ids
     # are DELIVERED to the real node; only correctly signed ones may succeed (P_C03), and the model must agree
-    res = common.app_check(ctx, "C03", None, THEOREMS, codes=[11], pred="P_C03", extra_assume=ASSUME,
+    res = common.app_check(ctx, "C03", None, THEOREMS, codes=[11], pred="P_C03", extra_assume=ASSUME, profile="corpus forkdelete",
                            nontrivial_rule="the invalid stream of the history generator signs transactions and then alters one field, flips a signature byte, signs with another account's key, signs for another chain id, or attaches a signature that verified earlier for another transaction of the same sender (see distribution: tamper-*, signed-by-other, wrong-chain, reused-signature)")
     if res is None:
         return
+    # "fails WITHOUT effect": the history re-executed without its failed transactions (the forged ones
+    # among them) must answer identically
+    for d in (ctx.app_stats.get("ForkDiffs") or [])[:3]:
+        V.violation(ctx, "forged-tx-leaves-effect", {"kind": "fork-and-delete-difference", "theorem": "C03_holds / C05_holds", "what": d,
+                                                     "meaning": "the same history with the failed (forged, tampered) transactions removed gives a different observable result"})
     app_cov = json.load(open(os.path.join(V.VERIF, "evidence", "C03.json")))["coverage"]
     binp, out = V.go_build(ctx)
     if binp is None:
